@@ -12,7 +12,8 @@
 (*   - every lookup answers the latest learnt tablet covering the position *)
 (*     if it is alive, else nothing; the replicas are those of the payload *)
 (*     that are resolvable;                                                *)
-(*   - the per-datacentre answer is the restriction of the full answer.    *)
+(*   - the per-datacentre answer is the restriction of the full answer, by  *)
+(*     the datacentre each replica node is in at the time of the lookup.   *)
 (* Drift-level (printed, never rejected): the Node objects of an answer    *)
 (* report the node's current datacentre; maintenance discards exactly the  *)
 (* tablets with a removed or still-unknown replica.                        *)
@@ -56,6 +57,8 @@ LookOk(L, e) ==
        /\ \A k \in 1..Len(e.dcs) :
             /\ e.dcs[k].ans.hit = 1
             /\ e.dcs[k].ans.reps = SelectSeq(e.all.reps, LAMBDA r : r[2] = e.dcs[k].dc)
+            \* ... by the datacentre the node is in now (a replica re-created in another datacentre moves with it)
+            /\ NodeShard(e.dcs[k].ans.reps) = NodeShard(SelectSeq(e.all.reps, LAMBDA r : DcOf(r[1]) = e.dcs[k].dc))
        \* drift only: answers carry the node's current datacentre
        /\ \A k \in 1..Len(e.all.reps) :
             IF e.all.reps[k][2] = DcOf(e.all.reps[k][1]) THEN TRUE
